@@ -59,6 +59,11 @@ example : pkgChainOK exFs [sR1] [sA, sB, sC] = true ∧ noInitUpTo exFs [sR1] = 
 -- level 2 from /r1/a/b/c/m.py: "..x" -> "a.b.x"; level 4 is above the package
 example : normPackage exFs ([sR1] ++ [sA, sB, sC] ++ [sM ++ PY]) [DOT, DOT, 120] = .ok [97, DOT, 98, DOT, 120] := by rfl
 example : normPackage exFs ([sR1] ++ [sA, sB, sC] ++ [sM ++ PY]) [DOT, DOT, DOT, DOT, 120] = .error .importError := by rfl
+-- a stray `/__init__.py` is inside the domain (the walk stops at the filesystem root): top = '/', package `a`
+example : pkgChainOK { files := [[INIT_PY], [sA, INIT_PY], [sA, sM ++ PY]], dirs := [] } [] [sA] = true ∧
+    noInitUpTo { files := [[INIT_PY], [sA, INIT_PY], [sA, sM ++ PY]], dirs := [] } [] = true := by decide
+example : normPackage { files := [[INIT_PY], [sA, INIT_PY], [sA, sM ++ PY]], dirs := [] } [sA, sM ++ PY] [DOT, 120]
+    = .ok [97, DOT, 120] := by rfl
 end Example
 
 
